@@ -367,12 +367,15 @@ pub fn fault_histories(tier: &str) -> Vec<FaultHistory> {
                 }
                 c
             },
+            // two large values share blob file 0; the first major compaction makes it half stale,
+            // the second one relocates it
             ops: vec![
                 Op::Put { k: 0, big: true },
-                Op::Put { k: 1, big: false },
+                Op::Put { k: 1, big: true },
                 fl.clone(),
                 Op::Put { k: 0, big: true },
                 fl.clone(),
+                Op::Major { w: Wm::Tight, target: u64::MAX },
                 Op::Major { w: Wm::Tight, target: u64::MAX },
             ],
         },
